@@ -507,7 +507,12 @@ pub fn render_bound(b: &BoundV, sp: u8) -> String {
         },
         BoundV::All => "bound(*)".into(),
         BoundV::Custom(preds) => {
-            let s = preds.join(", ");
+            // a trailing comma and one predicate per line are ordinary ways to write a list
+            let sep = if sp & 0x20 != 0 { ",\n    " } else { ", " };
+            let mut s = preds.join(sep);
+            if sp & 0x40 != 0 && !preds.is_empty() {
+                s.push(',');
+            }
             match sp % 3 {
                 0 => format!("bound({s})"),
                 1 => format!("bound = {}", strlit(&s)),
@@ -736,16 +741,41 @@ impl TypeSpec {
 
     fn render_def_with_plain(&self, derive: &str, educe_attrs: bool) -> String {
         if self.via_macro != 0 && derive == "Educe" && educe_attrs {
-            let body = self.render_def_inner(derive, educe_attrs, self.via_macro);
+            let (body, params, args) = self.macro_parts(derive, educe_attrs, self.via_macro);
+            let name = self.name.trim_start_matches("r#");
+            return format!("macro_rules! mk_{name} {{\n    ({}) => {{\n{body}    }};\n}}\nmk_{name}!({});\n", params.join(", "), args.join(", "));
+        }
+        self.render_def_inner(derive, educe_attrs, 0)
+    }
+
+    /// the definition as a `macro_rules!` caller would hand it to the derive, for the in-process engine: what `bits` turns
+    /// into fragments (types, discriminants, parameter values, Into targets - see `via_macro`) is wrapped in `__ng(..)`,
+    /// which `engine::expand_src` turns into the invisible None-delimited groups that fragments arrive in
+    pub fn render_def_grouped(&self, bits: u8) -> String {
+        let (mut body, params, args) = self.macro_parts("", true, bits & !16);
+        for (p, a) in params.iter().zip(args.iter()).rev() {
+            let frag = p.split(':').next().unwrap_or("");
+            body = body.replace(frag, &format!("__ng({a})"));
+        }
+        for (m, alias) in &self.method_alias {
+            body = replace_ident(&body, m, alias);
+        }
+        body
+    }
+
+    /// (macro body with `$x` fragments, macro parameters, arguments of the one invocation)
+    fn macro_parts(&self, derive: &str, educe_attrs: bool, bits: u8) -> (String, Vec<String>, Vec<String>) {
+        {
+            let body = self.render_def_inner(derive, educe_attrs, bits);
             let mut params: Vec<String> = Vec::new();
             let mut args: Vec<String> = Vec::new();
-            if self.via_macro & 1 != 0 {
+            if bits & 1 != 0 {
                 for (i, f) in self.all_fields().enumerate() {
                     params.push(format!("$t{i}:ty"));
                     args.push(f.ty.src.clone());
                 }
             }
-            if self.via_macro & 16 != 0 {
+            if bits & 16 != 0 {
                 // field names supplied by the caller (`$f:ident`): they carry the call site's hygiene while the derive
                 // attribute carries the macro body's
                 for (i, f) in self.all_fields().enumerate() {
@@ -755,7 +785,7 @@ impl TypeSpec {
                     }
                 }
             }
-            if self.via_macro & 2 != 0 {
+            if bits & 2 != 0 {
                 for (i, v) in self.variants.iter().enumerate() {
                     if let Some(d) = v.disc {
                         params.push(format!("$d{i}:expr"));
@@ -764,7 +794,7 @@ impl TypeSpec {
                 }
             }
             let mut body = body;
-            if self.via_macro & 4 != 0 {
+            if bits & 4 != 0 {
                 // values of field-level parameters written in token form (`method = path`, `rank(3)`, `Default = expr`)
                 // become `$m:path` / `$r:expr` / `$e:expr` fragments
                 let mut k = 0;
@@ -816,7 +846,7 @@ impl TypeSpec {
                     }
                 }
             }
-            if self.via_macro & 8 != 0 {
+            if bits & 8 != 0 {
                 // Into targets as `$g:ty` fragments: every other occurrence, so that a written target meets a fragment
                 for (gi, a) in self.into_targets().iter().enumerate() {
                     let Some(t) = a.into_ty.as_deref() else { continue };
@@ -847,10 +877,8 @@ impl TypeSpec {
                     }
                 }
             }
-            let name = self.name.trim_start_matches("r#");
-            return format!("macro_rules! mk_{name} {{\n    ({}) => {{\n{body}    }};\n}}\nmk_{name}!({});\n", params.join(", "), args.join(", "));
+            (body, params, args)
         }
-        self.render_def_inner(derive, educe_attrs, 0)
     }
 
     fn render_def_inner(&self, derive: &str, educe_attrs: bool, mac: u8) -> String {
